@@ -26,7 +26,7 @@ ASSUMPTIONS = [
 COMPONENTS = {'real': ['yldprolog.engine fact store, match_dynamic, retract/retractall/asserta/assertz builtins, clear', 'compiled idiom clauses (real compiler output)'],
               'stub': ['scheduler of the suspended enumerations and of the mutations between their steps'],
               'oracle': ['logical-update-view model: enumerations walk the records present at their start; retract skips records no longer stored; store = all asserts and removals applied']}
-REQUIRED_PROBES = ('step_in_large_enumeration', 'nonground_fact_answered', 'step_after_mutation', 'mutation_under_suspended_enum', 'mutation_adjacent_to_cursor', 'retract_enum_skipped_removed',
+REQUIRED_PROBES = ('guarded_scan_started', 'step_in_large_enumeration', 'nonground_fact_answered', 'step_after_mutation', 'mutation_under_suspended_enum', 'mutation_adjacent_to_cursor', 'retract_enum_skipped_removed',
                    'query_enum_visited_removed', 'two_enums_same_predicate', 'idiom_drain', 'idiom_upd', 'clear_under_suspended_enum')
 
 KEYS = [('p', 1), ('c', 1), ('p', 2)]
@@ -46,6 +46,7 @@ drain2 :- p(X,Y), retract(p(X,Y)), never_defined(X).
 drain2.
 addwhile :- p(X), assertz(p(X)), never_defined(X).
 addwhile.
+gscan(X) :- p(X), c(a).
 '''
 
 
@@ -77,12 +78,25 @@ class ModelSim:
 
     def next(self, e):
         """returns the row answered next (after applying a retract's removal) or None"""
+        if e['kind'] == 'g' and e.get('inner'):
+            # the guard c(a) of the current p fact has further solutions (several c(a) facts): same answer again
+            e['inner'] -= 1
+            return e['inner_row']
         while e['pos'] < len(e['snap']):
             rid, row = e['snap'][e['pos']]
             e['pos'] += 1
             if not self.matches(e['pat'], row):
                 continue
             present = self.store.has_id(e['key'], rid)
+            if e['kind'] == 'g':
+                # compiled `gscan(X) :- p(X), c(a).`: the guard is a goal of its own, started anew for every fact of
+                # p that is visited, so it sees the c/1 facts as they are at that moment
+                n = sum(1 for r in self.store.rows(('c', 1)) if self.matches([('a', 'a')], r))
+                if not n:
+                    continue
+                e['inner'] = n - 1          # the guard enumerates the c/1 facts as they are now, whatever happens later
+                e['inner_row'] = row
+                return row
             if e['kind'] == 'r':
                 if not present:
                     e['skipped'] += 1
@@ -203,6 +217,8 @@ def gen(seed, tier):
             m.add(key, [TM.T(t) for t in row], front)
         elif k < 0.43 and len(live) < 3:
             kind = rng.choice('qr')
+            if key == ('p', 1) and 1 in keys and rng.random() < 0.3:
+                kind = 'g'
             pat = gen_pat(rng, key[1])
             ops.append(['start', kind, ki, pat])
             e = m.start(kind, key, [TM.T(t) for t in pat])
@@ -268,7 +284,7 @@ def show_op(op):
     if op[0] == 'assert':
         return '%s %s' % ('asserta' if op[1] else 'assertz', show_goal(op[2], op[3]))
     if op[0] == 'start':
-        return 'start-%s %s' % ('query' if op[1] == 'q' else 'retract', show_goal(op[2], op[3]))
+        return 'start-%s %s' % ({'q': 'query', 'r': 'retract', 'g': 'guarded-scan (p(X), c(a))'}[op[1]], show_goal(op[2], op[3]))
     if op[0] == 'bulk':
         return 'assertz %d facts on %s/%d' % (op[2], KEYS[op[1]][0], KEYS[op[1]][1])
     if op[0] in ('retract1', 'retractall'):
@@ -331,12 +347,12 @@ def execute(plan):
             log.key((tag, e['kind'], tuple(e['pat']), e['pos'], tuple(r for _, r in e['snap'][:40]), tuple(m.store.rows(e['key'])[:40])))
         log.ev(tag, e['kind'], ok, None if got is None else tuple(TM.show(x) for x in got))
         if got != want:
-            log.violation('enumeration-differs', {'enumeration': ('query ' if e['kind'] == 'q' else 'retract ') + show_goal(KEYS.index(e['key']), [TM.J(p) for p in e['pat']]),
+            log.violation('enumeration-differs', {'enumeration': {'q': 'query ', 'r': 'retract ', 'g': 'guarded scan gscan(X) :- p(X), c(a). over '}[e['kind']] + show_goal(KEYS.index(e['key']), [TM.J(p) for p in e['pat']]),
                                                   'step': entry['steps'] + 1, 'engine': None if got is None else [TM.show(x) for x in got],
                                                   'model': None if want is None else [TM.show(x) for x in want]})
             return False
         entry['steps'] += 1
-        if entry['steps'] > len(e['snap']) + 1:
+        if e['kind'] != 'g' and entry['steps'] > len(e['snap']) + 1:
             log.violation('enumeration-longer-than-snapshot', {'steps': entry['steps'], 'snapshot': len(e['snap'])})
             return False
         if not ok:
@@ -371,7 +387,9 @@ def execute(plan):
                     log.count('two_enums_same_predicate')
                 vmap = {}
                 pargs = [TM.build(yp, t, vmap) for t in pat]
-                g = yp.query(key[0], pargs) if k2 == 'q' else yp.query('retract', [yp.functor(key[0], pargs)])
+                if k2 == 'g':
+                    log.count('guarded_scan_started')
+                g = (yp.query(key[0], pargs) if k2 == 'q' else yp.query('gscan', pargs) if k2 == 'g' else yp.query('retract', [yp.functor(key[0], pargs)]))
                 entry = {'e': m.start(k2, key, pat), 'task': GenTask(g), 'pargs': pargs, 'steps': 0}
                 live.append(entry)
                 if not do_step(entry, 'start'):
